@@ -296,7 +296,7 @@ impl Property for C14 {
         prop_oneof![12 => general, 1 => targeted].boxed()
     }
     fn cases(tier: Tier) -> u32 {
-        tier.pick(100_000, 500_000)
+        tier.pick(100_000, 1_500_000)
     }
     fn exhaustive(_tier: Tier, sink: &mut dyn FnMut(Scenario)) -> Vec<String> {
         let mut n = 0;
